@@ -5,6 +5,7 @@ NoDev    == {}
 Code     == {"IndexShift", "MapOrder"}
 OnlyMap  == {"MapOrder"}
 Tried    == {"TriedSticky"}
+Stale    == {"StaleAdd"}
 NoAbsent == {}
 A1       == {1}
 A2       == {2}
